@@ -4,6 +4,8 @@
 //! then observed); `Trace_ClientStream.tla` validates them.
 //!
 //! usage: record_client <trace.ndjson> <seed> <events> <rt> <idle> <max_per_conn>
+//!        record_client balance <trace.ndjson> <seed> <scenarios>
+//!        record_client multi <trace.ndjson> <seed> <scenarios> <tickms> <max requests per scenario>
 #[path = "../client.rs"]
 mod client;
 
@@ -273,8 +275,226 @@ fn record_balance(path: &str, seed: u64, nscen: u64) {
     println!("{}", json!({"events": n, "panics": panics}));
 }
 
+/// I->S for multi_stream under connection-establishment faults on a fine
+/// clock (ticks of `tickms`, shorter than the back-off): seeded scenarios
+/// over a connector whose connect() fails / succeeds on demand; after every
+/// step the harness logs what it can see.  `Trace_ClientMulti.tla` validates.
+fn record_multi(path: &str, seed: u64, nscen: u64, tickms: u64, maxreq: u64) {
+    use domain::net::client::multi_stream;
+    use domain::net::client::request::SendRequest;
+    use std::sync::{Arc, Mutex};
+    use std::time::Duration;
+    type Req = domain::net::client::request::RequestMessage<Vec<u8>>;
+    const NREQ: usize = 2;
+    let mut rng = Rng::new(seed);
+    let mut w = TraceWriter::create(path);
+    let tick = Duration::from_millis(tickms);
+    // response timeouts (ms): the lower end of the range, below / about /
+    // above the first back-offs (2 s, 4 s, 8 s ...), the default (never set)
+    let rts: Vec<i64> = if tickms < 1000 {
+        vec![1, 300, 900, 1000, 2000, 2600, 5000, 9000]
+    } else {
+        vec![1, 4000, 9000, 20000, 30000, -1, 50000, 100000]
+    };
+    let mut stats = json!({"timeout_in_backoff": 0, "reconnect_after_backoff": 0, "ok_after_failure": 0,
+                           "late": 0, "scenarios": 0, "ticks": 0, "hang": 0, "clock_drift": 0});
+    let mut rt_seen = std::collections::BTreeSet::new();
+    let bump = |st: &mut Value, k: &str| {
+        st[k] = json!(st[k].as_u64().unwrap() + 1);
+    };
+    for _ in 0..nscen {
+        // a runtime (and paused clock) of its own for every scenario
+        let rt = runtime();
+        let rtms = *rng.pick(&rts);
+        let route = *rng.pick(&["from", "default"]);
+        let calls = if rtms < 0 { json!([]) } else { json!([{"f": "set_response_timeout", "v": rtms}]) };
+        let conf = json!({"route": route, "calls": calls,
+                          "st": {"route": "new", "calls": [{"f": "set_response_timeout", "v": 595000},
+                                                          {"f": "set_idle_timeout", "v": 3600000}]}});
+        let fail_bias = 40 + rng.below(50);
+        let nsub = 1 + rng.below(maxreq.min(NREQ as u64)) as usize;
+        let conf2 = conf.clone();
+        let events: Vec<Value> = rt.block_on(async {
+            let mut evs = vec![];
+            let act = Activity::default();
+            let connector = StreamConnector::new(&act);
+            let mcfg = ms_config(&conf2).expect("configuration script");
+            let eff = ms_eff(&mcfg);
+            let (conn, transport) = multi_stream::Connection::<Req>::with_config(connector.clone(), mcfg);
+            tokio::spawn(counted(transport.run(), &act));
+            let comp: Completions = Arc::new(Mutex::new(vec![]));
+            let mut clock = Clock::new();
+            let mut now: u64 = 0;
+            let mut t_submit = vec![0u64; NREQ + 1];
+            let mut t_done = vec![-1i64; NREQ + 1];
+            let mut submitted = 0usize;
+            let mut closed: Vec<bool> = vec![];
+            let mut hang = !settle(&act).await;
+            evs.push(json!({"ev": "init", "conf": conf2, "eff": eff}));
+            let mut steps = 0;
+            loop {
+                steps += 1;
+                let ndone = comp.lock().unwrap().len();
+                if (submitted == nsub && ndone >= submitted) || steps > 400 {
+                    break;
+                }
+                while closed.len() < connector.npeers() {
+                    closed.push(false);
+                }
+                // who waits where: request r written on a live connection and not completed
+                let is_done = |r: usize| comp.lock().unwrap().iter().any(|(x, _, _)| *x as usize == r);
+                let mut waiting: Vec<(usize, usize)> = vec![];
+                for c in 0..connector.npeers() {
+                    if closed[c] {
+                        continue;
+                    }
+                    let p = connector.peer(c).unwrap();
+                    for r in 1..=submitted {
+                        if !is_done(r) && times_written(&p, r as u64) > 0 {
+                            waiting.push((c, r));
+                        }
+                    }
+                }
+                let active = (1..=submitted).any(|r| !is_done(r));
+                let pending = connector.has_pending();
+                // choose a step
+                let mut ev = if pending && rng.chance(85, 100) {
+                    if rng.chance(fail_bias, 100) { json!({"ev": "conn_fail"}) } else { json!({"ev": "conn_ok"}) }
+                } else if !waiting.is_empty() && rng.chance(70, 100) {
+                    let (c, r) = *rng.pick(&waiting);
+                    if rng.chance(fail_bias, 100) {
+                        json!({"ev": "close", "c": c + 1})
+                    } else if rng.chance(85, 100) {
+                        json!({"ev": "reply", "r": r, "c": c + 1})
+                    } else {
+                        json!({"ev": "wrong", "r": r, "c": c + 1})
+                    }
+                } else if submitted < nsub && (!active || rng.chance(25, 100)) {
+                    json!({"ev": "submit", "r": submitted + 1, "q": submitted + 1})
+                } else if active {
+                    json!({"ev": "tick"})
+                } else {
+                    continue;
+                };
+                let nconnect_before = connector.calls();
+                let in_backoff: Vec<usize> = (1..=submitted)
+                    .filter(|r| !is_done(*r) && !pending && !waiting.iter().any(|(_, x)| x == r))
+                    .collect();
+                match ev["ev"].as_str().unwrap() {
+                    "submit" => {
+                        let r = ev["r"].as_u64().unwrap();
+                        let req = SendRequest::send_request(&conn, build_request(r));
+                        spawn_waiter(req, r, &comp, &act);
+                        t_submit[r as usize] = now;
+                        submitted += 1;
+                    }
+                    "conn_ok" => {
+                        connector.resolve(true);
+                    }
+                    "conn_fail" => {
+                        connector.resolve(false);
+                    }
+                    "reply" | "wrong" => {
+                        let c = ev["c"].as_u64().unwrap() as usize - 1;
+                        let r = ev["r"].as_u64().unwrap();
+                        let peer = connector.peer(c).unwrap();
+                        let id = id_of_request(&peer, r).unwrap();
+                        let q = if ev["ev"] == "reply" { r } else { r + 10 };
+                        let f = json!({"id": id, "qr": true, "q": q, "rcode": 0, "body": false, "tc": false, "ka": -1});
+                        peer.push_frame(&build_peer_msg(&f));
+                    }
+                    "close" => {
+                        let c = ev["c"].as_u64().unwrap() as usize - 1;
+                        connector.peer(c).unwrap().close();
+                        closed[c] = true;
+                    }
+                    _ => {
+                        clock.advance(tick).await;
+                        now += 1;
+                    }
+                }
+                if !hang && !settle(&act).await {
+                    hang = true;
+                }
+                let written: Vec<Vec<bool>> = (0..connector.npeers())
+                    .map(|i| {
+                        let p = connector.peer(i).unwrap();
+                        (1..=NREQ as u64).map(|q| times_written(&p, q) > 0).collect()
+                    })
+                    .collect();
+                let mut done: Vec<Vec<Value>> = vec![vec![]; NREQ];
+                let mut fresh_done: Vec<(usize, bool)> = vec![];
+                for (r, o, _) in comp.lock().unwrap().iter() {
+                    let r = *r as usize;
+                    if t_done[r] < 0 {
+                        t_done[r] = (now - t_submit[r]) as i64;
+                        fresh_done.push((r, o.get("ok").is_some()));
+                    }
+                    done[r - 1].push(json!({"ok": o.get("ok").is_some(), "t": t_done[r]}));
+                }
+                ev["obs"] = json!({"nconnect": connector.calls(), "pending": connector.has_pending(),
+                                   "written": written, "done": done});
+                if hang {
+                    ev["obs"]["hang"] = json!(true);
+                }
+                if !clock.in_step() {
+                    ev["obs"]["clock_drift"] = json!(true);
+                }
+                // statistics for the vacuity guards (harness side only)
+                if ev["ev"] == "tick" {
+                    if connector.calls() > nconnect_before && !in_backoff.is_empty() {
+                        evs.push(json!({"stat": "reconnect_after_backoff"}));
+                    }
+                    for (r, ok) in fresh_done.iter() {
+                        if !*ok && in_backoff.contains(r) {
+                            evs.push(json!({"stat": "timeout_in_backoff", "rt": eff["rt"]}));
+                        }
+                    }
+                }
+                for (_, ok) in fresh_done.iter() {
+                    if *ok && connector.calls() > 1 {
+                        evs.push(json!({"stat": "ok_after_failure"}));
+                    }
+                }
+                evs.push(ev);
+            }
+            if hang {
+                evs.push(json!({"stat": "hang"}));
+            }
+            evs
+        });
+        bump(&mut stats, "scenarios");
+        for ev in events {
+            if let Some(k) = ev.get("stat").and_then(|k| k.as_str()) {
+                bump(&mut stats, k);
+                if k == "timeout_in_backoff" {
+                    rt_seen.insert(ev["rt"].as_u64().unwrap());
+                }
+                continue;
+            }
+            if ev["ev"] == "tick" {
+                bump(&mut stats, "ticks");
+            }
+            w.event(ev);
+        }
+    }
+    let n = w.finish();
+    stats["events"] = json!(n);
+    stats["timeout_in_backoff_rts"] = json!(rt_seen.into_iter().collect::<Vec<_>>());
+    println!("{}", stats);
+}
+
 fn main() {
     let args: Vec<String> = std::env::args().collect();
+    if args[1] == "multi" {
+        if !freeze_clock() {
+            eprintln!("clock interposition does not work on this platform");
+            std::process::exit(2);
+        }
+        record_multi(&args[2], args[3].parse().unwrap(), args[4].parse().unwrap(), args[5].parse().unwrap(),
+                     args[6].parse().unwrap());
+        return;
+    }
     if args[1] == "balance" {
         if !freeze_clock() {
             eprintln!("clock interposition does not work on this platform");
